@@ -22,10 +22,13 @@ def gen_cases(ctx, T, maxfiles, maxdur, nsample, seed):
 
 
 def interval_spelling(td, sp):
-    """The same max_interval as a timedelta, as a number of seconds of several numeric types, and as a string."""
+    """The same max_interval as a timedelta, as a number of seconds of several numeric types, and as a string - and with half
+    a second more (files start and end on ticks of at least a minute: the same abstract interval)."""
+    import datetime as dt
     import numpy as np
     secs = td.total_seconds()
-    return [td, int(secs), float(secs), np.int64(secs), np.float64(secs), "%d s" % secs, np.int32(secs)][sp % 7]
+    return [td, int(secs), float(secs), np.int64(secs), np.float64(secs), "%d s" % secs, np.int32(secs),
+            float(secs) + 0.5, td + dt.timedelta(milliseconds=500)][sp % 9]
 
 
 def do_match(fa, ta, fb, tb, emb, s, e, I, sp=0):
@@ -54,9 +57,11 @@ def replay_pair(col, item):
         fa, fb = ta.fileset(), tb.fileset()
         for rown, (s, e, I, pairs, nP, nG) in enumerate(case["rows"]):
             sp = rown + len(case["F"]) + 3 * len(case["G"])
+            if sp % 9 in (7, 8) and (I is None or any(f[1] == e + I for f in case["F"] + case["G"])):
+                sp = 0      # half a second more moves the (exclusive) end of the widened period past a file starting exactly there
             exp = sorted((p, sorted(gs)) for p, gs in pairs)
             rep = {"abstract": {"F": case["F"], "G": case["G"], "s": s, "e": e, "I": I},
-                   "concrete": {"embedding": emb_name, "layouts": [layout_a, layout_b], "max_interval_spelling": sp % 7}, "expected": exp}
+                   "concrete": {"embedding": emb_name, "layouts": [layout_a, layout_b], "max_interval_spelling": sp % 9}, "expected": exp}
             try:
                 got = do_match(fa, ta, fb, tb, emb, s, e, I, sp)
             except Exception as ex:
